@@ -97,6 +97,10 @@ def substring (s : Str) (low high : Int) : Option Str :=
   if low < 0 || high < low || high > s.length then none
   else some ((s.drop low.toNat).take (high.toNat - low.toNat))
 
+/-- `$substring(str, low)` — the two-argument form emitted for `s[low:]`: `high` is `undefined` and (since fix: fc7319c)
+    defaults to `str.length`. -/
+def substringOpen (s : Str) (low : Int) : Option Str := substring s low s.length
+
 /-- `$copyString(dst, src)` on a destination window of length `dstLen`: returns (n, bytes written). -/
 def copyString (dstLen : Nat) (src : Str) : Nat × Str :=
   let n := min src.length dstLen
